@@ -48,6 +48,18 @@ def r17_1(run):
             parts = desc.split(':')
             port = parts[1] if len(parts) > 1 and '=' not in parts[1] else dict(p.split('=', 1) for p in parts if '=' in p).get('port')
             run.ob('R17.1', li, c, 'the local port is chosen by the OS (port 0)', port == '0', slot='port0', message='local listener port is %r' % port)
+    # ... and nothing else makes the listener: every value given to self.tcp_endpoint in listen() is such a description, or a
+    # server endpoint constructed with an explicit loopback interface
+    for n in walk_unit(li):
+        if isinstance(n, ast.Assign) and assign_to(n, 'self.tcp_endpoint') is not None:
+            v = assign_to(n, 'self.tcp_endpoint')
+            if isinstance(v, ast.Call) and dotted(v.func) == 'serverFromString':
+                continue
+            iface = None
+            if isinstance(v, ast.Call):
+                iface = dict((k.arg, const(k.value)) for k in v.keywords).get('interface')
+            run.ob('R17.1', li, n, 'every local listener listen() creates is bound to a loopback interface', iface in LOOPBACK, slot='loopback-every-def',
+                   message='listen() also creates its listener as %s (%s): reachable from other hosts' % (src(v)[:60], 'no interface= given, so all interfaces' if iface is None else 'interface %r' % iface))
     ls = [c for c in calls_in(li) if dotted(c.func) == 'self.tcp_endpoint.listen']
     ok = len(ls) == 1 and ls[0].args and dotted(ls[0].args[0]) in ('self.protocolfactory', li.params[1])
     run.ob('R17.1', li, li.node, "the caller's factory is what listens locally", ok, slot='factory', message='tcp_endpoint.listen(%s)' % [src(a) for c in ls for a in c.args])
